@@ -313,6 +313,13 @@ def gen_cases(ctx):
         now = rng.choice([1000, 2000, 2001, 2500, 3000, 3001])
         ops += ['Q:%d:%s' % (now, hexs(rng.choice([ck, ck, bad]))), 'Q:%d:%s' % (now, hexs(ck)), L(0, now)]
         cases.append(case(ops, names=(nm,), flock=rng.randrange(2)))
+    # G10: threads on one session (per-sid mutex, with and without the fcntl lock): a load that runs while other threads save must see a
+    # complete record, never a half-written one (which it would also unlink)
+    for _ in range(ctx.scale(12, 60)):
+        t = rng.choice([5000, 9000])
+        pre = [S(0, 4000, rb(rng, rng.choice([0, 10, 3000])))] if rng.random() < 0.5 else []
+        cases.append(case(pre + ['T:0:%d:%d:%d:%d' % (t, rng.choice([2, 4]), ctx.scale(300, 1500), rng.choice([1, 100, 480, 3000])), L(0, 100)],
+                          flock=rng.randrange(2)))
     return cases
 
 
@@ -512,6 +519,12 @@ def oracle(case_line, out):
                 if prev != summ:
                     return ('invalid-cookie-touched-storage', 'an operation with a cookie that names no stored session changed the directory')
                 continue
+        if op == 'T':
+            if res != 'T=ok':
+                return ('concurrent-access-corruption', 'loads running concurrently with saves of the same session failed or returned a value '
+                        'that no thread wrote: ' + res[:80])
+            a = ['S', a[1], a[2], hexs(b'final')]
+            op = 'S'
         if op in ('S', 'K'):
             i, t, d = int(a[1]), int(a[2]), unhex(a[3])
             if op == 'S':
@@ -597,7 +610,7 @@ def oracle(case_line, out):
 def nontrivial(case_line, out):
     if case_line.startswith('E '):
         return ' C:' in case_line
-    return ' K:' in case_line or ' P:' in case_line or ' G:' in case_line or ' V:' in case_line or ' Q:' in case_line
+    return ' K:' in case_line or ' P:' in case_line or ' G:' in case_line or ' V:' in case_line or ' Q:' in case_line or ' T:' in case_line
 
 
 def classify(case_line, out):
@@ -606,7 +619,7 @@ def classify(case_line, out):
         return 'api:' + ('crash' if ' C:' in case_line else 'save-load') + (':none' if last and last[-1].startswith('R=none') else ':some' if last else '')
     ops = case_line.split()[2:]
     kinds = set(x[0] for x in ops)
-    k = 'cookie' if kinds == {'V'} else 'crash' if 'K' in kinds else 'garbage' if 'P' in kinds else 'gc' if 'G' in kinds else 'save-load'
+    k = 'cookie' if kinds == {'V'} else 'threads' if 'T' in kinds else 'crash' if 'K' in kinds else 'garbage' if 'P' in kinds else 'gc' if 'G' in kinds else 'save-load'
     if k == 'crash':
         ks = [x for x in ops if x[0] == 'K']
         ns = len(ks[-1].split(':')[4].split(','))
@@ -661,7 +674,8 @@ def run(ctx):
                             '{absent, shorter, equal, longer, garbage} x every byte progress x 3 clock positions x both deadline orders. Sampled '
                             '(seeded): 5 (18 thorough) multi-sector sizes around sector boundaries x 4 old shapes x (stream prefix x all sector subsets, and '
                             'independent per-sector progress); int64 deadline boundaries; garbage headers/lengths/names; gc directories; random '
-                            'histories; constructed CRC collisions; files shorter than their size field with the CRC of the zero-padded data. Non-trivial = script contains a crashed save, a garbage file or a gc; '
+                            'histories; session_sid::valid_sid on cookies around every clause and session_sid::load on crash states; threads saving and loading '
+                            'one session concurrently; constructed CRC collisions; files shorter than their size field with the CRC of the zero-padded data. Non-trivial = script contains a crashed save, a garbage file or a gc; '
                             'distinct = distinct script lines. A second family (lines starting with E, no model, oracle only) drives the public API: '
                             'session_interface over a session_pool with file storage (session_interface::save/load -> session_sid -> '
                             'session_file_storage) with one cookie jar: saves W, crashed saves C (materialised from the recorded write() calls of the '
